@@ -4,6 +4,9 @@ package c16
 import (
 	"errors"
 	"fmt"
+	"io"
+	"log"
+	"log/slog"
 	"net/http"
 	"testing"
 
@@ -25,7 +28,7 @@ type Rq struct {
 
 type Case struct {
 	Subject  string `json:"subject"`  // router gnew gnewown gadd
-	Recovery string `json:"recovery"` // none func status
+	Recovery string `json:"recovery"` // none func status write log slog
 	Status   int    `json:"status"`
 	Trace    bool   `json:"trace"`
 	UseLate  bool   `json:"use_late"` // Use after the registrations instead of before
@@ -43,7 +46,7 @@ var (
 func gen(t *rapid.T) Case {
 	c := Case{
 		Subject:  rapid.SampledFrom([]string{"router", "gnew", "gnewown", "gnewboth", "gadd"}).Draw(t, "subject"),
-		Recovery: rapid.SampledFrom([]string{"none", "func", "func", "status"}).Draw(t, "recovery"),
+		Recovery: rapid.SampledFrom([]string{"none", "none", "func", "func", "func", "status", "status", "write", "log", "slog"}).Draw(t, "recovery"),
 		Status:   rapid.SampledFrom([]int{500, 503, 418}).Draw(t, "status"),
 		Trace:    rapid.Bool().Draw(t, "trace"),
 		UseLate:  rapid.Bool().Draw(t, "useLate"),
@@ -88,6 +91,12 @@ func build(c Case) *world {
 		}))
 	case "status":
 		opts = append(opts, mux.WithStatusRecovery(c.Status))
+	case "write": // the three reporting variants answer the status like WithStatusRecovery and write a stack somewhere
+		opts = append(opts, mux.WithWriteRecovery(c.Status, io.Discard))
+	case "log":
+		opts = append(opts, mux.WithLogRecovery(c.Status, log.New(io.Discard, "", 0)))
+	case "slog":
+		opts = append(opts, mux.WithSLogRecovery(c.Status, slog.New(slog.NewTextHandler(io.Discard, nil))))
 	}
 	populate := func(r *mux.Router[*rig.H]) {
 		if !c.UseLate {
@@ -296,7 +305,7 @@ func check(c Case, st *rig.Stats) error {
 }
 
 var stats = rig.NewStats("C16",
-	"rapid draws a subject (Router; Group whose router is made by Group.New, with the recovery option given to NewGroup, only to Group.New, or to both with different functions (the router's must win); Group with an Added router carrying its own option), a recovery mode (none, WithRecovery(f), WithStatusRecovery), WithTrace on/off, Use before or after the registrations, for group subjects optionally a sibling router made by Group.New with a recovery function of its own before or after the subject (that function must never run), and 1-8 requests (eight methods x live, parameterised, unknown, '*', '' and group-unmatched paths) of which about 60% carry a fault: panic in the base handler (route, HEAD, OPTIONS, 405, 404, TRACE, group not-found) or in middleware layer m0 / m1 (Use) / m5 (route) / mg (Group.Use), before or after next, with a string, error, int, pointer or http.ErrAbortHandler value; a quarter of the requests are served by a handler that itself issues a nested request to the same subject (so two request contexts are alive at once). A fault-free twin built identically gives the normal outcome. Oracle: with recovery nothing escapes ServeHTTP, f runs exactly once with the identical value (== / same pointer), WithStatusRecovery answers its status; without recovery the identical value reaches the caller; requests whose fault point is not on their path, and all later requests, are served exactly like the twin (handler, route, parameters as seen before and after the handler ran, status, middlewares, and the same for the nested request). Non-trivial: a fault fired outside a plain route handler (middleware layer or generated handler); distinct by hash of the case",
+	"rapid draws a subject (Router; Group whose router is made by Group.New, with the recovery option given to NewGroup, only to Group.New, or to both with different functions (the router's must win); Group with an Added router carrying its own option), a recovery mode (none, WithRecovery(f), WithStatusRecovery, WithWriteRecovery / WithLogRecovery / WithSLogRecovery with a discarding sink), WithTrace on/off, Use before or after the registrations, for group subjects optionally a sibling router made by Group.New with a recovery function of its own before or after the subject (that function must never run), and 1-8 requests (eight methods x live, parameterised, unknown, '*', '' and group-unmatched paths) of which about 60% carry a fault: panic in the base handler (route, HEAD, OPTIONS, 405, 404, TRACE, group not-found) or in middleware layer m0 / m1 (Use) / m5 (route) / mg (Group.Use), before or after next, with a string, error, int, pointer or http.ErrAbortHandler value; a quarter of the requests are served by a handler that itself issues a nested request to the same subject (so two request contexts are alive at once). A fault-free twin built identically gives the normal outcome. Oracle: with recovery nothing escapes ServeHTTP, f runs exactly once with the identical value (== / same pointer), WithStatusRecovery answers its status; without recovery the identical value reaches the caller; requests whose fault point is not on their path, and all later requests, are served exactly like the twin (handler, route, parameters as seen before and after the handler ran, status, middlewares, and the same for the nested request). Non-trivial: a fault fired outside a plain route handler (middleware layer or generated handler); distinct by hash of the case",
 	"Added routers carry the same recovery option as their group (a group only promises recovery for routers it created and for its own not-found handler)")
 
 type rigMW = types.Middleware[*rig.H]
